@@ -476,8 +476,17 @@ def gen_op_(rng, kind, doc, sel, pool):
         par = doc.resolve(pos).parent.type
         if kind == "remove_node_mark" and node.marks and rng.random() < 0.8:
             m = rng.choice(node.marks)
-            if rng.random() < 0.3:
+            r = rng.random()
+            if r < 0.3:
                 return {"op": kind, "pos": pos, "mark": None, "mtype": m.type.name}
+            if r < 0.55 and m.type.attrs:
+                # a mark of a type the node carries, but with other attribute values: the step applies
+                # (and removes nothing); its inverse must leave the node alone as well
+                for _ in range(4):
+                    m2 = m.type.create(rand_attrs(rng, m.type, p_default=0.2))
+                    if not m2.eq(m):
+                        m = m2
+                        break
         else:
             m = rand_mark(rng, schema, par.allows_mark_type if rng.random() < 0.85 else None)
         if m is None:
@@ -773,6 +782,17 @@ class Refused(Exception):
     """The command did not apply here (precondition false on this document)."""
 
 
+# set by the simulator: called with (kind, object) for every value this harness builds and hands to a
+# library operation as an argument (C10: "no operation changes a ... slice ... that was passed to it")
+on_input = None
+
+
+def _inp(kind, obj):
+    if on_input is not None:
+        on_input(kind, obj)
+    return obj
+
+
 def apply_op(tr, op):
     """Execute a concrete op on transform `tr` (deterministic in (tr.doc, op)).  Raises Refused when
     the op's precondition does not hold on this document; library exceptions propagate."""
@@ -821,13 +841,13 @@ def apply_op(tr, op):
         tr.delete_range(op["from"], op["to"])
     elif k == "paste":
         inr(op["from"], op["to"])
-        tr.replace(op["from"], op["to"], Slice.from_json(schema, op["slice"]))
+        tr.replace(op["from"], op["to"], _inp("slice", Slice.from_json(schema, op["slice"])))
     elif k == "paste_range":
         inr(op["from"], op["to"])
-        tr.replace_range(op["from"], op["to"], Slice.from_json(schema, op["slice"]))
+        tr.replace_range(op["from"], op["to"], _inp("slice", Slice.from_json(schema, op["slice"])))
     elif k == "insert_node":
         inr(op["from"], op["to"])
-        node = Node.from_json(schema, op["node"])
+        node = _inp("doc", Node.from_json(schema, op["node"]))
         if op["via"] == "insert":
             tr.insert(op["from"], node)
         elif op["via"] == "replace_with":
